@@ -1123,7 +1123,7 @@ def run(env: Env) -> Outcome:
     dfs_corr(env, out, env.budget(1500, 60000))
     # sessions: chains of real Workflow subclasses, add_step between validations, validate() / cached _validate()
     srng = random.Random(env.rng.randrange(1 << 30))
-    n_sessions = env.budget(400, 9000)
+    n_sessions = env.budget(400, 5000)
     sdone = 0
     while sdone < n_sessions:
         chunk: list[tuple[dict, str]] = []
